@@ -2,8 +2,9 @@
 self-delimiting streams and the whole-bitstring property; plus a native cross-check of the proved ue/se contracts."""
 import random
 
-META = {'explanation': 'ue/se encoders and decoders are proved for all integers / all bit contents with loop invariants; '
-                       'uie/sie and stream concatenation are bounded stand-ins on the real functions.'}
+META = {'explanation': 'ue/se encoders and decoders and the interleaved (uie/sie) decoders are proved for all integers / all bit contents with loop '
+                       'invariants; the uie/sie encoders (string-built) and stream concatenation are bounded stand-ins on the real functions; the stream and '
+                       'token-list readers run with generated codes of up to 401 bits.'}
 EXTRA_TASKS = ['bounded_codes', 'creation_routes_isolation']
 
 
